@@ -56,6 +56,35 @@ fn escape_ntriples_literal(value: &str) -> String {
         .collect()
 }
 
+/// The part of a line that precedes its comment. In N-Triples, N-Quads and Turtle a
+/// `#` outside an IRI (`<...>`) and outside a literal (`"..."`) starts a comment that
+/// runs to the end of the line.
+fn strip_line_comment(line: &str) -> &str {
+    let mut in_iri = false;
+    let mut in_literal = false;
+    let mut characters = line.char_indices().peekable();
+    while let Some((offset, character)) = characters.next() {
+        match character {
+            '\\' if !in_iri => {
+                characters.next();
+            }
+            '"' if !in_iri => in_literal = !in_literal,
+            '<' if !in_literal && !in_iri => {
+                // `<<` opens a quoted triple, not an IRI
+                if characters.peek().is_some_and(|&(_, next)| next == '<') {
+                    characters.next();
+                } else {
+                    in_iri = true;
+                }
+            }
+            '>' if in_iri => in_iri = false,
+            '#' if !in_iri && !in_literal => return &line[..offset],
+            _ => {}
+        }
+    }
+    line
+}
+
 /// Decodes the lexical value of an N-Triples/N-Quads double-quoted literal
 /// and returns the suffix following its escape-aware closing quote.
 fn decode_ntriples_literal(term: &str) -> Option<(String, &str)> {
@@ -1073,10 +1102,10 @@ impl SparqlDatabase {
 
     pub fn parse_turtle(&mut self, turtle_data: &str) {
         for raw_line in turtle_data.lines() {
-            let line = raw_line.trim();
+            let line = strip_line_comment(raw_line).trim();
 
             // Skip empty lines and comments
-            if line.is_empty() || line.starts_with("#") {
+            if line.is_empty() {
                 continue;
             }
 
@@ -1394,11 +1423,7 @@ impl SparqlDatabase {
                 let mut statement = String::new();
 
                 for raw_line in chunk {
-                    let mut line = raw_line.as_str();
-                    if let Some(comment_start) = line.find('#') {
-                        line = &line[..comment_start];
-                        line = line.trim();
-                    }
+                    let line = strip_line_comment(raw_line).trim();
                     if line.is_empty() {
                         continue;
                     }
@@ -1470,10 +1495,10 @@ impl SparqlDatabase {
                 let mut local_triples = Vec::new();
 
                 for line in chunk.iter() {
-                    let line = line.trim();
+                    let line = strip_line_comment(line).trim();
 
                     // Skip empty lines and comments
-                    if line.is_empty() || line.starts_with('#') {
+                    if line.is_empty() {
                         continue;
                     }
 
@@ -1527,8 +1552,8 @@ impl SparqlDatabase {
 
     pub fn parse_nquads_and_add(&mut self, nquads_data: &str) {
         for raw_line in nquads_data.lines() {
-            let line = raw_line.trim();
-            if line.is_empty() || line.starts_with('#') {
+            let line = strip_line_comment(raw_line).trim();
+            if line.is_empty() {
                 continue;
             }
 
